@@ -65,6 +65,9 @@ Apply(op, a, b, c) ==
     \* repeated elements gives fewer rows than it has elements
     [] op = "tset"  -> Set({Map([id |-> x, twice |-> IntV(x.i * 2), tag |-> b]) :
                               x \in (IF a.k = "list" THEN Range(a.e) ELSE a.e)})
+    \* a call of another view: H(a, b) evaluates `let v1 = a * 2; total = v1 + b` in a scope of its own (the callee's
+    \* let is named like a variable of the caller on purpose) and yields the record of its assigned fields
+    [] op = "call"  -> Map([total |-> IntV(a.i * 2 + b.i)])
     \* a record built by a transform without iteration: (a = ..., b = ..., c = ...)
     [] op = "mkmap"  -> Map([a |-> a, b |-> b, c |-> c])
     \* attribute access
@@ -96,6 +99,7 @@ WellTyped(op, a, b, c) ==
     [] op = "where" -> a.k = "set" /\ ElemKinds(a) \subseteq {"int"} /\ b.k = "int"
     [] op = "tform" -> a.k \in {"list", "set"} /\ ElemKinds(a) \subseteq {"int"} /\ b.k = "int"
     [] op = "tconst" -> a.k \in {"list", "set"} /\ ElemKinds(a) \subseteq {"int"} /\ b.k = "int"
+    [] op = "call" -> a.k = "int" /\ b.k = "int"
     [] op = "tset" -> a.k \in {"list", "set"} /\ ElemKinds(a) \subseteq {"int"} /\ b.k = "int"
     [] op = "mkmap" -> a.k = "int" /\ b.k = "int" /\ c.k = "int"
     [] op = "attr" -> a.k = "map" /\ DOMAIN a.m = {"a", "b", "c"}
